@@ -167,6 +167,7 @@ type FnCtx struct {
 	captured        map[*ssa.Alloc]bool
 	retOrd          map[*ssa.Return]int
 	volatile        map[string]bool
+	volatileRefs    map[string][]string // heap -> objects whose array field is aliased by a slice
 	extraGuard      string
 	deferFlags      []string
 	curBindings     []ssa.Value
@@ -205,7 +206,8 @@ func (c *FnCtx) declare(name, srt string) string {
 			}
 			c.strConsts[name] = true
 		}
-		if strings.HasPrefix(name, "HE_any@") || strings.HasPrefix(name, "HMV_string_any@") {
+		if (strings.HasPrefix(name, "HE_any@") || strings.HasPrefix(name, "HMV_string_any@")) && c.con != nil && c.con.Flags["heapvalid"] {
+			// (only on request, flag heapvalid: one quantifier per heap version makes other proofs unstable)
 			// type invariant of the value heaps: every stored element is a valid interface value
 			idx := "Int"
 			if strings.HasPrefix(name, "HMV_") {
@@ -415,6 +417,24 @@ func (c *FnCtx) heapGet(name, srt string) string {
 	if c.volatile[name] {
 		return c.heapHavoc(name)
 	}
+	if refs := c.volatileRefs[name]; len(refs) > 0 && strings.HasPrefix(srt, "(Array Int ") {
+		// the listed objects hold an array that is aliased by a slice: each read sees arbitrary
+		// contents there, every other object keeps its value
+		old, ok := c.cur[name]
+		if !ok {
+			old = c.entry[name]
+		}
+		nv := c.fresh(name + "@")
+		c.declare(nv, srt)
+		r := c.fresh("r")
+		var gs []string
+		for _, ref := range refs {
+			gs = append(gs, not(eq(r, ref)))
+		}
+		c.assume(forall([][2]string{{r, "Int"}}, implies(and(gs...), eq(sel(nv, r), sel(old, r))), sel(nv, r)))
+		c.cur[name] = nv
+		return nv
+	}
 	if t, ok := c.cur[name]; ok {
 		return t
 	}
@@ -524,10 +544,12 @@ func (c *FnCtx) strLit(s string) string {
 	n := fmt.Sprintf("strlit!%d", len(c.strlits))
 	c.strlits[s] = n
 	c.declare(n, "Str")
-	c.assume(eq(app("slen", n), intLit(int64(len(s)))))
+	// the defining facts of a literal travel with its declaration: they hold in every query, whichever
+	// block (or axiom) mentioned the literal first
+	c.decls = append(c.decls, "(assert "+eq(app("slen", n), intLit(int64(len(s))))+")")
 	if len(s) <= 64 {
 		for i := 0; i < len(s); i++ {
-			c.assume(eq(app("sat", n, intLit(int64(i))), intLit(int64(s[i]))))
+			c.decls = append(c.decls, "(assert "+eq(app("sat", n, intLit(int64(i))), intLit(int64(s[i])))+")")
 		}
 	}
 	return n
